@@ -136,6 +136,8 @@ var effContracts = map[string]effContract{
 	"(*bytes.Buffer).String":            {pure: true},
 	"(*bytes.Buffer).ReadByte":          {pure: true},
 	"(*bytes.Reader).ReadByte":          {pure: true},
+	"io.ReadFull":                       {writes: []int{1}}, // copies from the reader into its second argument; keeps neither
+	"io.ReadAtLeast":                    {writes: []int{1}},
 	"(*bytes.Buffer).Read":              {writes: []int{1}},
 	"(*bytes.Reader).Read":              {writes: []int{1}},
 	"(*bytes.Buffer).Write":             {writes: []int{0}, readerWrite: true},
